@@ -119,6 +119,11 @@ def reader_tokens(fdef):
         if value is None:
             raise SchemaError("unsupported statement in deserialize: " + ast.unparse(s)[:60])
         calls = _reader_calls(value)
+        if not calls and any(isinstance(n, ast.Name) and n.id in ("infile", "inf") for n in ast.walk(value)):
+            # the stream is touched by something that is not one of the primitive readers (seek, raw read, ...):
+            # recorded as a token of unknown width, which aligns with nothing
+            toks.append({"kind": ("raw-stream-access", ast.unparse(value)[:50]), "dest": None, "wrappers": [], "line": s.lineno})
+            continue
         dest = None
         if isinstance(s, ast.Assign):
             t = s.targets[0]
